@@ -451,7 +451,7 @@ func (n *UnaryNode) Format(buf *bytes.Buffer, indent string, onNewLine bool) {
 	}
 	writeIndent(buf, indent, onNewLine)
 	buf.WriteString(n.Operator.String())
-	n.Node.Format(buf, indent, false)
+	formatOperand(buf, indent, false, n.Node, func(*BinaryNode) bool { return true })
 }
 func (n *UnaryNode) SetComment(c *CommentNode) {
 	n.Comment = c
@@ -551,7 +551,11 @@ func (n *BinaryNode) Format(buf *bytes.Buffer, indent string, onNewLine bool) {
 		buf.WriteByte('(')
 		indent += indentStep
 	}
-	n.Left.Format(buf, indent, false)
+	// The operators are left-associative: a left operand binds as it is written when its operator
+	// does not bind weaker, a right operand only when its operator binds stronger.
+	formatOperand(buf, indent, false, n.Left, func(o *BinaryNode) bool {
+		return operatorPrecedence(o.Operator) < operatorPrecedence(n.Operator)
+	})
 	buf.WriteByte(' ')
 	buf.WriteString(n.Operator.String())
 	if n.MultiLine {
@@ -559,10 +563,36 @@ func (n *BinaryNode) Format(buf *bytes.Buffer, indent string, onNewLine bool) {
 	} else {
 		buf.WriteByte(' ')
 	}
-	n.Right.Format(buf, indent, n.MultiLine)
+	formatOperand(buf, indent, n.MultiLine, n.Right, func(o *BinaryNode) bool {
+		return operatorPrecedence(o.Operator) <= operatorPrecedence(n.Operator)
+	})
 	if n.Parens {
 		buf.WriteByte(')')
 	}
+}
+
+func operatorPrecedence(op TokenType) int {
+	if int(op) < len(precedence) {
+		return precedence[op]
+	}
+	return 0
+}
+
+// formatOperand writes an operand of an expression.
+// Trees that were not made by the parser, such as the condition that two where properties are combined into,
+// have operands that need parentheses to mean in text what the tree means:
+// a binary operand whose operator binds too weak and was not written in parentheses.
+func formatOperand(buf *bytes.Buffer, indent string, onNewLine bool, operand Node, bindsWeaker func(*BinaryNode) bool) {
+	if o, ok := operand.(*BinaryNode); ok {
+		if !o.Parens && bindsWeaker(o) {
+			writeIndent(buf, indent, onNewLine)
+			buf.WriteByte('(')
+			o.Format(buf, indent+indentStep, false)
+			buf.WriteByte(')')
+			return
+		}
+	}
+	operand.Format(buf, indent, onNewLine)
 }
 func (n *BinaryNode) SetComment(c *CommentNode) {
 	n.Comment = c
